@@ -1406,8 +1406,10 @@ func (client *client) pollNewMessages(ids []packets.PacketID) (unused []packets.
 				ids = ids[1:]
 			}
 			if client.version == packets.Version5 && m.Message.MessageExpiry != 0 {
-				d := uint32(now.Sub(v.At).Seconds())
-				m.Message.MessageExpiry = d
+				// forward the remaining lifetime: the received value minus the time the message has been waiting
+				if d := uint32(now.Sub(v.At).Seconds()); d < m.Message.MessageExpiry {
+					m.Message.MessageExpiry -= d
+				}
 			}
 			client.write(gmqtt.MessageToPublish(m.Message, client.version))
 		case *queue.Pubrel:
